@@ -396,6 +396,94 @@ func runC17(c *fw.Ctx) {
 				c.Count("repaired_child_merged_into_parent", 1)
 			}
 		}
+		// a handle with a history: it has read the complete state (warm cache), replaces one value locally (the replaced
+		// nodes are really deleted from a memory / persistent store) and is then synced back to the old root from a donor that
+		// does not hold those nodes. What it reports must follow the store as it is now, not what its cache remembers.
+		if storeKind != 1 && si%5 == 2 && len(mdl) > 0 && !c.Violated() {
+			var hs util.NodeDB
+			hclean := func() {}
+			hdisk := disk + "-h"
+			if storeKind == 0 {
+				hs = util.NewMemoryNodeDB()
+			} else {
+				hp, herr := util.NewPNodeDB(hdisk, "")
+				if herr != nil {
+					panic(herr)
+				}
+				hs = hp
+				hclean = func() { hp.Close(); grocksdb.DropDisk(hdisk) }
+			}
+			for _, n := range nodes {
+				_ = hs.PutNode(n.Key, n.Node)
+			}
+			H := lab.NewMPT(hs, mv, root)
+			if f := lab.CheckMap(H, mdl, nil); f != "" {
+				fail("handle on a complete store: %s", f)
+			}
+			ks := lab.SortedKeys(mdl)
+			up := ks[r.Intn(len(ks))]
+			if _, ierr := H.Insert(util.Path(up), &lab.Val{B: []byte("local-update")}); ierr == nil {
+				rootDonor := util.NewMemoryNodeDB() // holds the old root node only (an absent root is outside the property's domain)
+				_ = rootDonor.PutNode(nodes[0].Key, nodes[0].Node)
+				if merr := H.MergeDB(rootDonor, root, nil); merr != nil {
+					fail("MergeDB back to the old root failed: %v", merr)
+				}
+				// what is absent now, as the store says
+				gone := map[int]bool{}
+				for i, n := range nodes {
+					if sn, gerr := hs.GetNode(n.Key); gerr != nil || sn == nil {
+						gone[i] = true
+					}
+				}
+				hfront := map[string]bool{}
+				var hwalk func(i int, ok bool)
+				hwalk = func(i int, ok bool) {
+					if gone[i] {
+						if ok {
+							hfront[string(nodes[i].Key)] = true
+						}
+						ok = false
+					}
+					for _, k := range kids[i] {
+						hwalk(k, ok)
+					}
+				}
+				hwalk(0, true)
+				has, herr := H.HasMissingNodes(context.Background())
+				if herr != nil || has != (len(hfront) > 0) {
+					fail("a handle that replaced %q locally and was synced back to the old root: HasMissingNodes = %v, %v, but %d reachable node(s) are absent from its store", up, has, herr, len(hfront))
+				}
+				miss, _ := H.GetAllMissingNodes()
+				gotm := map[string]bool{}
+				for _, k := range miss {
+					gotm[string(k)] = true
+				}
+				if len(gotm) != len(hfront) {
+					fail("a handle that replaced %q locally and was synced back to the old root: GetAllMissingNodes reports %d keys, %d absent nodes are reachable through present ones", up, len(gotm), len(hfront))
+				}
+				for p, v := range mdl {
+					under := false
+					for i, n := range nodes {
+						if gone[i] && strings.HasPrefix(p, n.Path) {
+							under = true
+						}
+					}
+					d, lerr := H.GetNodeValueRaw(util.Path(p))
+					if under && lerr == nil {
+						fail("a handle that replaced %q locally and was synced back to the old root: lookup %q passes through a node that is gone from the store but returned %q", up, p, d)
+						break
+					} else if !under && (lerr != nil || !bytes.Equal(d, v)) {
+						fail("a handle that replaced %q locally and was synced back to the old root: lookup %q (nothing absent on its way) = %q, %v; content is %q", up, p, d, lerr, v)
+						break
+					}
+				}
+				if len(hfront) > 0 {
+					c.Count("handles_with_history_synced_back_over_real_deletions", 1)
+				}
+				c.Count("handles_with_history_synced_back", 1)
+			}
+			hclean()
+		}
 		// sync into a layered trie, then persist: SaveChanges to the lower store, fresh trie on that store alone
 		if len(removed) > 0 && si%4 == 2 && !c.Violated() {
 			lower := util.NewMemoryNodeDB()
@@ -498,7 +586,7 @@ func init() {
 		Rule: "each case builds a trie over 1..4 versions (so node origins differ; every 83rd case a big one with several hundred nodes and an additional removal set holding every non-root node) and then, for every single reachable non-root node (up to 24; exhaustive for small tries), 3 whole subtrees, 4 scattered subsets and the empty set, " +
 			"copies the trie into a store (memory / layered / persistent) without the removed nodes and a donor store with them. A trie opened at a version equal to or above the creating versions must: report HasMissingNodes iff the frontier is non-empty; " +
 			"GetAllMissingNodes == frontier (absent nodes reachable through present ones, computed by the harness); lookups through an absent node fail with ErrNodeNotFound, others return the model value, never-stored paths never return data; partial iteration yields only true pairs; " +
-			"after the repair (MergeDB(donor) through the trie, or for a third of the removal sets the store-level util.MergeState(donor, store)): content complete (also for a fresh trie on the repaired store), root unchanged, HasMissingNodes false, donor snapshot (key->encoding) byte-identical; for a third of the removal sets the repair is repeated through a trie whose cache is warm (it read the complete state before the nodes were deleted from its store) and judged by a fresh trie; for a quarter the repair runs in a child trie whose changes (plus one insert) are then merged into a parent trie of another version, after which the donor snapshot must still be identical; for a quarter the sync runs in a layered trie followed by SaveChanges to the lower store, which a fresh trie must read completely; for a quarter the donor is a layered store whose own trie has moved on since. non-trivial/distinct = (trie, removal set) pairs with a non-empty removal",
+			"after the repair (MergeDB(donor) through the trie, or for a third of the removal sets the store-level util.MergeState(donor, store)): content complete (also for a fresh trie on the repaired store), root unchanged, HasMissingNodes false, donor snapshot (key->encoding) byte-identical; for a fifth of the removal sets on a memory or persistent store a handle that has read the complete state replaces one value locally (its store really deletes the replaced nodes) and is synced back to the old root from a donor holding only the old root node: HasMissingNodes / GetAllMissingNodes / lookups must follow the store as it is now, not what the handle's cache remembers; for a third of the removal sets the repair is repeated through a trie whose cache is warm (it read the complete state before the nodes were deleted from its store) and judged by a fresh trie; for a quarter the repair runs in a child trie whose changes (plus one insert) are then merged into a parent trie of another version, after which the donor snapshot must still be identical; for a quarter the sync runs in a layered trie followed by SaveChanges to the lower store, which a fresh trie must read completely; for a quarter the donor is a layered store whose own trie has moved on since. non-trivial/distinct = (trie, removal set) pairs with a non-empty removal",
 		Cases: func(tier string) int {
 			if tier == "thorough" {
 				return 120000
@@ -506,7 +594,7 @@ func init() {
 			return 4800
 		},
 		Run:    runC17,
-		Floors: map[string]int64{"fat_tries": 50, "removal_sets_above_256_nodes": 35, "store_level_repairs": 15000, "syncs_after_a_local_delete": 3000, "tries": 3000, "removal_sets": 50000, "removal:single": 30000, "removal:subtree": 9000, "removal:scattered": 12000, "blocked_lookups": 50000, "repairs_with_foreign_origin": 20000, "tries_with_mixed_origins": 1000, "warm_cache_repairs": 10000, "repaired_child_merged_into_parent": 8000, "synced_state_saved_and_reread": 8000, "repairs_from_layered_donor": 8000},
+		Floors: map[string]int64{"fat_tries": 50, "removal_sets_above_256_nodes": 35, "store_level_repairs": 15000, "syncs_after_a_local_delete": 3000, "handles_with_history_synced_back": 5000, "handles_with_history_synced_back_over_real_deletions": 2000, "tries": 3000, "removal_sets": 50000, "removal:single": 30000, "removal:subtree": 9000, "removal:scattered": 12000, "blocked_lookups": 50000, "repairs_with_foreign_origin": 20000, "tries_with_mixed_origins": 1000, "warm_cache_repairs": 10000, "repaired_child_merged_into_parent": 8000, "synced_state_saved_and_reread": 8000, "repairs_from_layered_donor": 8000},
 		Assumptions: []string{
 			"the donor is a MemoryNodeDB (map iteration order = arbitrary repair order)",
 			"single-node removals are exhaustive up to 24 nodes per trie; other subsets are sampled",
